@@ -271,13 +271,14 @@ impl Db {
                         format!("_{s}{r}")
                     }
                     Some(t) if INHERENT_TRAITS.contains(&t.as_str()) || t == "Clone" => "".into(),
-                    Some(t) if t == "ComplexField" || t == "RealField" || t == "PartialEq" || t == "PartialOrd" => "".into(),
+                    Some(t) if t == "ComplexField" || t == "RealField" || t == "PartialEq" || t == "PartialOrd" || t == "Display" => "".into(),
                     Some(t) => format!("_{}", t),
                     None => "".into(),
                 };
                 let prefix = match trait_.as_deref() {
                     Some("ComplexField") => "cf_",
                     Some("RealField") => "rf_",
+                    Some("Display") => "dp_",
                     Some("PartialEq") => "pe_",
                     Some("PartialOrd") => "po_",
                     _ => "",
